@@ -918,10 +918,14 @@ def needs_root_task(task_registry: TaskRegistry, expr: Any) -> bool:
         f"Could not find task `{expr.task_name}`, found options {list(task_registry._tasks.keys())}"
     )
 
+    # Task options may be expressions too (e.g. `memory=get_context("bwa.memory")`). They are
+    # evaluated in jobs of their own, which need a parent job just like lazy arguments do.
     default_kwargs = get_arg_defaults(task, expr.args, expr.kwargs)
     return any(
         isinstance(arg, Expression)
-        for arg in iter_nested_value((expr.args, expr.kwargs, default_kwargs))
+        for arg in iter_nested_value(
+            (expr.args, expr.kwargs, default_kwargs, expr._options, task.get_task_options())
+        )
     )
 
 
